@@ -1,7 +1,10 @@
 """With --export-less a name imported into one module of a package is not re-exported by its stub, but the stub of a sibling that imports it from there still does so.
 
 Exit status 1 = defect present, 0 = absent, 2 = inconclusive (preconditions of the input failed).
-Mechanism keys: stub-typecheck:parse-only:attr-defined:Module "_" does not explicitly export attribute "_":import, stub-typecheck:semantic:attr-defined:Module "_" does not explicitly export attribute "_":import"""
+Mechanism keys:
+  stub-typecheck:parse-only:attr-defined:Module '_' does not explicitly export attribute '_':import
+  stub-typecheck:semantic:attr-defined:Module '_' does not explicitly export attribute '_':import
+"""
 import os
 import sys
 
